@@ -3,6 +3,7 @@
 -/
 import CSD.Lemmas.Blocks
 import CSD.Generated.PoolOps
+import CSD.Lemmas.BlocksImage
 
 namespace CSD.Props.C09
 open CSD CSD.Pool CSD.Blocks
@@ -44,5 +45,21 @@ this run equals the one the model was written against. -/
 theorem blocks_protocol_matches_source : CSD.Generated.poolOps = sourceShape := rfl
 
 example : cut 3 [[0x61], [0x62, 0x63], [0x64]] = [[[0x61], [0x62, 0x63]], [[0x64]]] := by decide
+
+
+/-- The image of a block dictionary is a function of its fields alone (`BlocksImg.save`), and those fields are
+recovered from it (`load ∘ save = id`): two builds whose parts, first strings and starting IDs agree write the
+same bytes, whatever produced them. The driver parses the image of every build (`blocks-image`) and checks that
+the parts partition the input in order. -/
+theorem blocks_image_determined_by_fields (d₁ d₂ : BlocksImg.Img) (h : d₁ = d₂) : BlocksImg.save d₁ = BlocksImg.save d₂ := by
+  rw [h]
+
+theorem blocks_fields_determined_by_image (d₁ d₂ : BlocksImg.Img) (w₁ : BlocksImg.WF d₁) (w₂ : BlocksImg.WF d₂)
+    (h : BlocksImg.save d₁ = BlocksImg.save d₂) : d₁ = d₂ := by
+  have h1 := BlocksImg.load_save d₁ w₁ []
+  have h2 := BlocksImg.load_save d₂ w₂ []
+  rw [h] at h1
+  rw [h1] at h2
+  simpa using h2
 
 end CSD.Props.C09
